@@ -116,3 +116,15 @@ seed('c04-incumbent-unguarded', 'C04', [(PRMC, "if (opt_->isCostBetterThan(pathC
 seed('c04-cost-no-terminal', 'C04', [(PG, "    cost = opt->combineCosts(cost, opt->terminalCost(states_.back()));\n", "")], 'R04d')
 seed('c04-cost-from-2', 'C04', [(PG, "    for (std::size_t i = 1; i < states_.size(); ++i)\n        cost = opt->combineCosts", "    for (std::size_t i = 2; i < states_.size(); ++i)\n        cost = opt->combineCosts")], 'R04d')
 seed('c04-n-lt-single-expr', 'C04', [(PD, "    if (!approximate_ && b.approximate_)\n        return true;\n    if (approximate_ && !b.approximate_)\n        return false;", "    if (approximate_ != b.approximate_)\n        return b.approximate_;")], None)
+
+# ---- C13 -------------------------------------------------------------------------------------------------------
+GRID = 'src/ompl/datastructures/Grid.h'
+GRIDN = 'src/ompl/datastructures/GridN.h'
+GRIDB = 'src/ompl/datastructures/GridB.h'
+seed('c13-probe-plus1', 'C13', [(GRID, "                coord[i] += 2;", "                coord[i] += 1;")], 'R13a')
+seed('c13-limit-gt-oneside', 'C13', [(GRIDN, "if (c->border && c->neighbors >= interiorCellNeighborsLimit_)\n                    c->border = false;", "if (c->border && c->neighbors > interiorCellNeighborsLimit_)\n                    c->border = false;")], 'R13b')
+seed('c13-flip-no-move', 'C13', [(GRIDB, "                        external_.remove(reinterpret_cast<typename externalBHeap::Element *>(c->heapElement));\n                        internal_.insert(c);", "                        internal_.insert(c);")], 'R13c')
+seed('c13-remove-no-pass', 'C13', [(GRIDN, "                    c->neighbors--;\n", "")], 'R13d')
+seed('c13-add-wrong-heap', 'C13', [(GRIDB, "            if (cell->border)\n                external_.insert(ccell);\n            else\n                internal_.insert(ccell);", "            if (cell->border)\n                internal_.insert(ccell);\n            else\n                external_.insert(ccell);")], 'R13c')
+seed('c13-n-direct-assign', 'C13', [(GRIDN, "                    c->neighbors--;\n                    if (!c->border && c->neighbors < interiorCellNeighborsLimit_)\n                        c->border = true;", "                    c->neighbors--;\n                    c->border = c->neighbors < interiorCellNeighborsLimit_;")], None)
+seed('c13-n-loop-upwards', 'C13', [(GRID, "for (int i = dimension_ - 1; i >= 0; --i)\n            {\n                coord[i]--;", "for (int i = 0; i < (int)dimension_; ++i)\n            {\n                coord[i]--;")], None)
